@@ -189,6 +189,19 @@ def _const_int(node):
     raise Unsupported("non-literal array initialiser element (%s)" % k)
 
 
+_HH = {}
+
+
+def _headers_hash(repo):
+    if repo not in _HH:
+        h = hashlib.sha1()
+        for base in ("include", "src"):
+            for q in sorted((repo / base).rglob("*.h")):
+                h.update(q.relative_to(repo).as_posix().encode() + b"\0" + q.read_bytes() + b"\0")
+        _HH[repo] = h.hexdigest()
+    return _HH[repo]
+
+
 def load_tu(repo, rel, cache_dir):
     repo = Path(repo)
     path = repo / rel
@@ -199,10 +212,9 @@ def load_tu(repo, rel, cache_dir):
         src_args, stdin = ["-x", "c", "-"], '#include "%s"\n' % path
     else:
         src_args, stdin = [str(path)], None
-    pre = subprocess.run(["clang"] + CLANG_FLAGS + inc + ["-E", "-P"] + src_args, input=stdin, capture_output=True, text=True)
-    if pre.returncode != 0:
-        raise Unsupported("%s does not preprocess: %s" % (rel, pre.stderr.strip()[:300]))
-    key = hashlib.sha1((rel + "\0" + " ".join(CLANG_FLAGS) + "\0" + pre.stdout + "\0v4").encode()).hexdigest()
+    # cache key: the file, every header of the repository (an #include may reach any of them), the flags
+    key = hashlib.sha1((rel + "\0" + " ".join(CLANG_FLAGS) + "\0v5\0").encode() + path.read_bytes() + b"\0" +
+                       _headers_hash(repo).encode()).hexdigest()
     cfile = Path(cache_dir) / (key + ".json")
 
     def make_tu(slim):
